@@ -96,7 +96,13 @@ class DictDecoder:
         if not data:
             raise ParserError("Document is empty, can not detect type")
 
-        keys = data[0].keys() if isinstance(data, list) else data.keys()
+        first = data[0] if isinstance(data, list) else data
+        if not isinstance(first, dict):
+            raise ParserError(
+                f"Unable to detect type: expected object, got {type(first).__name__}"
+            )
+
+        keys = first.keys()
         clazz: type[T] | None = self.context.find_type_by_fields(set(keys))
 
         if clazz:
